@@ -22,7 +22,7 @@ RULE = ("Hypothesis: well-formed notes on 2 channels over 3-4 pitches (same pitc
 ASSUMPTIONS = ["inputs respect the library's tie convention (note-off before note-on of the same key on one tick)",
                "the trailing INTERNAL marker (total duration) is not an 'event' of the statement and is not checked"]
 TIERS = {"quick": dict(shards=8, examples=1500, alt_ppqn=[480], alt_shards=2),
-         "thorough": dict(size=2, shards=16, examples=25000, alt_ppqn=[480, 7, 1000], alt_shards=4)}
+         "thorough": dict(fuzz_runs=20000, fuzz_shards=4, size=2, shards=16, examples=25000, alt_ppqn=[480, 7, 1000], alt_shards=2)}
 
 STEP_POOL = [1, 2, 3, 4, 5, 6, 7, 8, 12, 16, 24, 48]
 
